@@ -94,7 +94,7 @@ Definition b_whm (dl dr : hd) (hl hr : A) : M hd :=
        safe_l = where(mask, delta_l, 1) ; safe_r = where(mask, delta_r, 1) ; dh = whm(safe_l, safe_r, ..) ;
        where(mask, dh, 0) *)
 Definition b_interior_slope (fixed : bool) (dl dr : hd) (hl hr : A) : M hd :=
-  let mask := z0 <? (snd dl * snd dr) in
+  let mask := same_sign_mask ar (snd dl) (snd dr) in   (* the sign test of Model/Pchip.v (follows /repo 79a08c0) *)
   dh <- (if fixed
          then (one1 <- const z1 ;; sl <- where_ mask dl one1 ;;
                one2 <- const z1 ;; sr <- where_ mask dr one2 ;; b_whm sl sr hl hr)
@@ -117,12 +117,13 @@ Definition b_endpoint_slope (dl dr : hd) (hl hr : A) : M hd :=
   cd <- const (hl + hr) ;; div s cd.
 
 (* _limit_endpoint (masks exactly as Model/Pchip.v limit_endpoint_fixed, i.e. /repo after b976cb3):
-     d = where(sign(d) != sign(s_l), 0, d) ; where((s_l*s_r < 0) & (|d| > 3|s_l|), 3.0 * s_l, d) *)
+     d = where(sign(d) != sign(s_l), 0, d) ; where((sign(s_l)*sign(s_r) < 0) & (|d| > 3|s_l|), 3.0 * s_l, d)
+   (sign tests = same_sign_mask / opp_sign_mask of Model/Pchip.v, /repo 79a08c0) *)
 Definition b_limit_endpoint (d sl sr : hd) : M hd :=
   zz <- const z0 ;;
   d1 <- where_ (a_neqb ar (a_sign ar (snd d)) (a_sign ar (snd sl))) zz d ;;
   k3 <- const z3 ;; t <- mul k3 sl ;;
-  where_ (((snd sl * snd sr) <? z0) && ((z3 * a_abs ar (snd sl)) <? a_abs ar (snd d1))) t d1.
+  where_ ((opp_sign_mask ar (snd sl) (snd sr)) && ((z3 * a_abs ar (snd sl)) <? a_abs ar (snd d1))) t d1.
 
 Definition b_end_slope (hs : list A) (ds : list hd) : M hd :=
   match hs, ds with
